@@ -303,6 +303,16 @@ func c10Run(c c10Case, res *WRes) {
 			fmt.Sprintf("%s processed a request in the name of client registration %q although the presentation (%s, secret %s) does not authenticate it", c.Endpoint, c.Reg, c.Transport, c.Secret), "invalid_client / invalid_request", o.JSON)
 		return
 	}
+	if succeeded && !ok && skipOK && !public {
+		// the handler may go on without client authentication, but then not in the name of the confidential client
+		io := w.Introspect(o.Str("access_token"), "", "", w.AuthFor("I"), "")
+		res.note("skip-auth-token-introspected")
+		if cid, _ := io.JSON["client_id"].(string); cid == id {
+			viol(fmt.Sprintf("C10/unauthenticated-request-processed-in-the-name-of-client/%s/reg=%s", c.Endpoint, c.Reg),
+				fmt.Sprintf("%s went on without client authentication (presentation %s, secret %s does not authenticate %q) yet the issued token is bound to that confidential client", c.Endpoint, c.Transport, c.Secret, c.Reg), "a token not bound to the client", io.JSON)
+			return
+		}
+	}
 	if !succeeded && !ok && !skipOK {
 		// rejected: class and no token-table effects
 		if o.Err != "invalid_client" && o.Err != "invalid_request" && !(c.Endpoint == "revoke" && o.GoErr != "") {
